@@ -532,6 +532,22 @@ def verify_link_signature_thresholds(layout, steps_metadata):
                 LOG.info("Skipping link. %s", e)
                 continue
 
+            # Skip links whose signature cannot be checked with the authorized
+            # key at all, e.g. signature and key formats do not match
+            except (
+                securesystemslib.exceptions.FormatError,
+                KeyError,
+                ValueError,
+            ) as e:
+                LOG.info(
+                    "Skipping link. Cannot verify signature with keyid '%s'"
+                    " for step '%s': %s",
+                    link_keyid,
+                    step.name,
+                    e,
+                )
+                continue
+
             # Warn if there are links signed by different subkeys of same main key
             if main_keyid in used_main_keyids:
                 LOG.warning(
